@@ -335,7 +335,51 @@ def run_variance(case, ctx):
     ctx.mark_nontrivial(abs(case['dt_exp']) > 0.3)
 
 
+def run_from_model(case, ctx):
+    """Parameters.from_EstimationModel: the simulator's parameters are drawn for exactly the model's enabled terms, element by
+    element (NOT transposed), and the parameter table it produces is named like the model's states."""
+    from pyins import inertial_sensor as isn
+    rng = np.random.RandomState(case['sub'])
+    (model, bias_on, walk_on, noise_on, sm_on, bias_sd, walk_sd, noise_sd, sm_sd) = ctx.sut(make_model, case, rng)
+    seed = int(case['sub'] % 100000)
+    msnap = [np.array(getattr(model, k), copy=True) for k in ('P', 'q', 'v', 'scale_misal_sd', 'bias_sd')]
+    par = ctx.sut(isn.Parameters.from_EstimationModel, model, seed)
+    for k, b in zip(('P', 'q', 'v', 'scale_misal_sd', 'bias_sd'), msnap):
+        ctx.check(np.array_equal(getattr(model, k), b), 'model_modified', k)
+    dT = par.transform - np.eye(3)
+    ctx.check(np.all(dT[~sm_on] == 0.0) and np.all(par.bias[~bias_on] == 0.0), 'disabled_parameter_simulated',
+              lambda: f'transform-I {dT} mask {sm_on}; bias {par.bias} mask {bias_on}')
+    ctx.check(np.all(dT[sm_on] != 0.0) and np.all(par.bias[bias_on] != 0.0), 'enabled_parameter_not_simulated',
+              lambda: f'transform-I {dT} mask {sm_on}; bias {par.bias} mask {bias_on}')
+    # each element is N(0, its own sd): |value| <= 7 sd (probability of a false alarm 3e-12 per element)
+    zs = np.abs(dT[sm_on] / sm_sd[sm_on])
+    zb = np.abs(par.bias[bias_on] / bias_sd[bias_on])
+    ctx.check(np.all(zs <= 7) and np.all(zb <= 7), 'parameter_not_scaled_by_its_own_sd', lambda: f'normalised draws {zs} {zb}')
+    ctx.check(np.array_equal(par.noise, noise_sd) and np.array_equal(par.bias_walk, walk_sd), 'noise_parameters_differ', lambda: f'{par.noise} {par.bias_walk}')
+    # same integer seed -> same parameters
+    par2 = isn.Parameters.from_EstimationModel(model, seed)
+    ctx.check(np.array_equal(par2.transform, par.transform) and np.array_equal(par2.bias, par.bias), 'seed_not_deterministic', '')
+    # the parameter table after apply() carries exactly the model's state names, in the model's order
+    t = times_for(case, rng)
+    readings = pd.DataFrame(rng.randn(len(t), 3), index=t, columns=['gyro_x', 'gyro_y', 'gyro_z'])
+    out = ctx.sut(par.apply, readings, case['sensor_type'])
+    names = list(model.states)
+    ctx.check(list(par.data_frame.columns) == names, 'parameter_table_names', lambda: f'{list(par.data_frame.columns)} vs states {names}')
+    # and the model can represent the simulated systematic error exactly: H(x) state == (T - I) x + b  (noise-free part)
+    if case['sensor_type'] == 'rate' and not noise_on.any() and not walk_on.any():
+        Hs = model.output_matrix(readings.values)
+        if not sm_on.any():
+            Hs = np.broadcast_to(Hs, (len(t),) + Hs.shape)
+        pred = np.einsum('nij,nj->ni', Hs, par.data_frame[names].values) if names else np.zeros((len(t), 3))
+        e2 = np.abs(pred - (out.values - readings.values)).max()
+        ctx.check(e2 <= 256 * EPS * (1 + np.abs(readings.values).max()), 'model_cannot_represent_simulated_error', lambda: f'{e2:.3e}')
+    asym = bool(np.any(sm_on != sm_on.T))
+    ctx.label('asymmetric_sm_mask' if asym else 'symmetric_sm_mask')
+    ctx.mark_nontrivial(asym and bias_on.any())
+
+
 CLAUSES = [
+    Clause('from_model', mask_strategy, run_from_model, quick=(400, 4), thorough=(12000, 16)),
     Clause('algebra', mask_strategy, run_algebra, quick=(1600, 8), thorough=(60000, 16)),
     Clause('invalid', mask_strategy, run_invalid, quick=(100, 1), thorough=(2000, 2)),
     Clause('layout_blocks', block_strategy, run_layout_block, quick=(16, 8), thorough=(2500, 16)),
